@@ -41,6 +41,14 @@ pub fn cleanup_scratch() {
 }
 
 pub const WATCHDOG: Duration = Duration::from_secs(10);
+/// Multiplier of both watchdogs (level A: 10 s, level B: 20 s). A run that outlives its watchdog is
+/// given this many times longer before it counts as a hang: on an overloaded machine a run can be
+/// starved for seconds, a real hang never ends.
+pub static WATCHDOG_SCALE: std::sync::atomic::AtomicU64 = std::sync::atomic::AtomicU64::new(1);
+
+pub fn watchdog_scale() -> u32 {
+    WATCHDOG_SCALE.load(Ordering::SeqCst).max(1) as u32
+}
 
 /// Runs (world, plan) at level A in a forked child and judges it against the model.
 pub fn run_forked(world: &World, plan: &Plan) -> ChildReport {
@@ -83,7 +91,7 @@ pub fn run_forked(world: &World, plan: &Plan) -> ChildReport {
                 events: libc::POLLIN,
                 revents: 0,
             };
-            let left = WATCHDOG.saturating_sub(started.elapsed());
+            let left = (WATCHDOG * watchdog_scale()).saturating_sub(started.elapsed());
             if left.is_zero() {
                 hung = true;
                 break;
